@@ -273,6 +273,29 @@ func C13(c *Ctx) {
 			r.Check(same, "R13.4", "FlushDirtyData: cache receives the returned dirty set", c.P.Pos(in.Pos()), "accountCache.add(dirtyAccounts) with the map that is committed", "the cache is filled from a different account set than the one that is committed")
 		}
 	}
+	if ad := c.fn("R13.4", "internal/ledger.(*AccountCache).add"); ad != nil {
+		n := 0
+		for _, cb := range ad.AnonFuncs {
+			isAdd := func(in ssa.Instruction) bool {
+				call, ok := in.(ssa.CallInstruction)
+				return ok && core.CalleeName(call) == "(*github.com/hashicorp/golang-lru.Cache).Add"
+			}
+			if len(sites(cb, isAdd)) == 0 {
+				continue
+			}
+			n++
+			rs := core.Reach([]core.Point{core.EntryOf(cb)}, isAdd, nil)
+			skipped := false
+			for _, ret := range core.Returns(cb) {
+				if rs.Has(ret) {
+					skipped = true
+				}
+			}
+			r.Check(!skipped, "R13.4", "AccountCache.add: every dirty key enters the state cache", c.P.Pos(cb.Pos()), "the Range callback adds the key on every path (deleted keys as nil tombstones)",
+				"some dirty keys are not written to the state cache at flush: until the commit reaches the database, a read falls through to the stale database value")
+		}
+		r.Floor("R13.4", "state-cache fill callbacks", n, 1)
+	}
 	if rv := c.fn("R13.4", "internal/ledger.(createObjectChange).revert"); rv != nil {
 		ok := len(sites(rv, func(in ssa.Instruction) bool {
 			call, ok := in.(ssa.CallInstruction)
